@@ -248,7 +248,10 @@ func Replay(t *testing.T, cfgs map[string]PropCfg) {
 			if len(s.Nodes) > 0 {
 				opts = s.Nodes[0]
 			}
-			viol = runC01(&s, opts, nil)
+			// nondeterminism may need several executions to show (e.g. map iteration order): up to 8 twin runs
+			for i := 0; i < 8 && len(viol) == 0; i++ {
+				viol = runC01(&s, opts, nil)
+			}
 		}
 		for _, l := range tr {
 			fmt.Println(l)
